@@ -52,7 +52,7 @@ func c09resuming() []string {
 	return out
 }
 
-var c09clients = append(append(append([]string{}, pki.AllCreds...), c09resuming()...), "plain-text", "abort-after-hello", "stall", "garbage", "stall-x48", "stall-x300", "garbage-x48")
+var c09clients = append(append(append([]string{}, pki.AllCreds...), c09resuming()...), "plain-text", "abort-after-hello", "stall", "garbage", "stall-x48", "stall-x300", "garbage-x48", "abandon-x200")
 
 func c09pki() *pki.PKI {
 	c09.once.Do(func() {
@@ -261,6 +261,32 @@ func (s *c09server) faulty(kind, tok string) (end func(), reply string) {
 			return end, "dial: " + err.Error()
 		}
 		return func() { c.Close() }, "connected, sending nothing"
+	case "abandon-x200":
+		// 200 clients one after the other that give their handshake up: close at once, close after half a
+		// ClientHello, reset at once, abort after a whole ClientHello
+		n := 0
+		for i := 0; i < 200; i++ {
+			sconn.NextSeq()
+			c, err := net.DialTimeout("tcp", addr, 5*time.Second)
+			if err != nil {
+				break
+			}
+			n++
+			switch i % 4 {
+			case 1:
+				c.Write([]byte("\x16\x03\x01\x02\x00\x01\x00\x01\xfc\x03\x03"))
+			case 2:
+				if tc, ok := c.(*net.TCPConn); ok {
+					tc.SetLinger(0)
+				}
+			case 3:
+				tc := tls.Client(&closeAfterFirstWrite{Conn: c}, c09pki().ClientConfig(pki.CredRight))
+				tc.SetDeadline(time.Now().Add(2 * time.Second))
+				tc.Handshake()
+			}
+			c.Close()
+		}
+		return end, fmt.Sprintf("%d handshakes abandoned", n)
 	case "stall-x48", "stall-x300", "garbage-x48":
 		// many clients at once: stalled (connected, nothing sent, kept open) or sending garbage
 		n := 48
@@ -391,7 +417,9 @@ func c09run(idx int) run.Result {
 	}
 	var end func()
 	var observed string
+	fdBefore := 0
 	play := func() {
+		fdBefore = fdCount()
 		end, observed = s.faulty(sc.Client, tok)
 		desc["client_observed"] = observed
 	}
@@ -422,6 +450,27 @@ func c09run(idx int) run.Result {
 		}
 	}
 	end()
+	if sc.Client == "abandon-x200" {
+		// an abandoned handshake must not keep anything of the server that other clients need: once the server
+		// has come to rest, the sockets of the 200 clients that went away are closed on the server side too
+		// (a process that keeps them runs out of descriptors, and then nobody is accepted). Fixed point: no
+		// server goroutine is working (all are parked in Accept or waiting for a request).
+		deadline := time.Now().Add(watchdog)
+		for time.Now().Before(deadline) && (busyServerGoroutines() > 0 || fdCount() > fdBefore+8) {
+			sconn.NextSeq()
+			time.Sleep(10 * time.Millisecond)
+		}
+		res.Count("abandoned_handshake_runs", 1)
+		if now := fdCount(); now > fdBefore+8 {
+			if busyServerGoroutines() == 0 && now >= fdBefore+50 {
+				_, dump := serverGoroutines()
+				res.Violate(fmt.Sprintf(sig, "abandoned-handshakes-keep-sockets"), "a failed, stalled or abandoned handshake affects only that client", fmt.Sprintf("%s; every client socket is closed and no server goroutine is working, but the server process holds %d descriptors more than before them (%d -> %d): the descriptors other clients need run out\nserver goroutines:\n%s", observed, now-fdBefore, fdBefore, now, clipS(dump, 800)), desc)
+			} else {
+				res.Inconclusive = fmt.Sprintf("descriptor count did not settle (%d -> %d)", fdBefore, now)
+			}
+			return res
+		}
+	}
 	// (1) the gate: handler calls for the faulty client's token
 	served := false
 	for _, c := range s.rec.Snapshot() {
@@ -505,7 +554,7 @@ func init() {
 	run.Register(&run.Prop{
 		ID: "C09", Level: "fault_enumeration",
 		Rule: func(tier string) string {
-			return "the scenario space {no rule, common-name rule, rule + password, no rule / rule after the client CA was replaced across a restart, rule with an application-supplied tls.Config that makes client certificates optional} x {no certificate, self-signed, foreign CA, expired, right CA wrong name, right name only on an intermediate, right CA right name, each of these seven once more as a client with a TLS session cache connecting three times (later handshakes resume the first session), plain-text bytes on the TLS port, abort after ClientHello, stall, garbage, 48 and 300 simultaneous stalled connections, 48 simultaneous garbage connections} x position relative to two well-behaved client pairs {before, between, after} = 378 scenarios is enumerated completely (thorough: 5 repetitions), each (in a process whose system trust store holds exactly the foreign CA) against a fresh server configured through the file-based TLS path with a PKI minted at run time, on real loopback sockets. Oracle: (gate) a recording handler keyed by a per-client token: the client is served iff its handshake completes with a chain to the CA and (no rule or its LEAF common name matches); (containment) after the faulty client - and while a stalled one is still connected - a valid TLS client and a plain client must each dial, handshake and be answered; 'valid client not served' is a violation only with a structural witness (dial refused, or the goroutine profile shows the accept loop inside Handshake). Plus an in-process sweep of the certificate rule through hook H1 with fabricated connection states (0..3 peer certificates, the name at each chain position)"
+			return "the scenario space {no rule, common-name rule, rule + password, no rule / rule after the client CA was replaced across a restart, rule with an application-supplied tls.Config that makes client certificates optional} x {no certificate, self-signed, foreign CA, expired, right CA wrong name, right name only on an intermediate, right CA right name, each of these seven once more as a client with a TLS session cache connecting three times (later handshakes resume the first session), plain-text bytes on the TLS port, abort after ClientHello, stall, garbage, 48 and 300 simultaneous stalled connections, 48 simultaneous garbage connections, 200 handshakes abandoned one after the other (closed at once, after half a ClientHello, reset, after a whole ClientHello: once no server goroutine is working the process must not hold their sockets any more)} x position relative to two well-behaved client pairs {before, between, after} = 396 scenarios is enumerated completely (thorough: 25 repetitions), each (in a process whose system trust store holds exactly the foreign CA) against a fresh server configured through the file-based TLS path with a PKI minted at run time, on real loopback sockets. Oracle: (gate) a recording handler keyed by a per-client token: the client is served iff its handshake completes with a chain to the CA and (no rule or its LEAF common name matches); (containment) after the faulty client - and while a stalled one is still connected - a valid TLS client and a plain client must each dial, handshake and be answered; 'valid client not served' is a violation only with a structural witness (dial refused, or the goroutine profile shows the accept loop inside Handshake). Plus an in-process sweep of the certificate rule through hook H1 with fabricated connection states (0..3 peer certificates, the name at each chain position)"
 		},
 		Exhaustive:    func(string) bool { return true },
 		Assumptions:   []string{"handshake faults are produced by a real client over loopback; faults needing control of TCP segmentation inside the handshake are not produced"},
